@@ -1,11 +1,11 @@
 /* C05 correspondence harness: the real qmail-smtpd.c blast() (DATA decoder + hop counter) over the real substdio / saferead.
  * usage: c05_blast <maxlen> <nrandom> <seed> <shard> <nshards>     |  c05_blast -   (cases "<plan> <hex>" on stdin)
- * output per case: <plan> <input-hex> <A|S|E|T> <stored-hex> <consumed> <hops> <ssin.p> <ssin.n> <nreads> <delivered>
+ * output per case: <plan> <input-hex> <A|S|E|T|H> <stored-hex> <consumed> <hops> <ssin.p> <ssin.n> <nreads> <delivered>
  *   A = blast returned (terminator seen), S = straynewline (451), E = die_read (end of input or failing read), T = other exit
  *   nreads = read() calls made (the failing one included), delivered = bytes of the stream those calls had returned when the
  *   case ended (for E: what the program had been given when it gave up - it only reads when its buffer is empty)
  * <plan> (one token) says how the stream is cut into read()s: comma-separated caps used cyclically, one per read() call
- *   (0 = no cap, e = this read fails with EIO), optionally followed by @k: the first k bytes of the stream are consumed
+ *   (0 = no cap, e / a / n / p = this read fails with EIO / EAGAIN / EINTR / ECONNRESET), optionally followed by @k: the first k bytes of the stream are consumed
  *   through substdio_get(&ssin,buf,<=k) before blast() is called (so blast() starts with bytes already buffered, as after
  *   a pipelined DATA command).  A plain integer is the old <chunk>.  consumed counts from the end of the skipped prefix. */
 #include "hcommon.h"
@@ -50,13 +50,13 @@ static void prog_restore(void) { for (int i = 0; i < ngreg; i++) rawcopy(greg[i]
 static const unsigned char *in_p; static size_t in_n, in_pos;
 static hbuf stored, replyb;
 #define MAXPLAN 64
-static int plan[MAXPLAN], plan_n; static long plan_k, in_reads; static int plan_skip, in_failed, in_case;
+static int plan[MAXPLAN], plan_n; static long plan_k, in_reads; static int plan_skip, in_failed, in_case, in_hang;
 
 static int parse_plan(const char *t) {
   plan_n = 0; plan_skip = 0;
   while (*t && *t != '@') {
     if (plan_n >= MAXPLAN) return 0;
-    if (*t == 'e') { plan[plan_n++] = -1; t++; }
+    if (*t == 'e' || *t == 'a' || *t == 'n' || *t == 'p') { plan[plan_n++] = *t == 'e' ? -1 : *t == 'a' ? -2 : *t == 'n' ? -3 : -4; t++; }
     else if (*t >= '0' && *t <= '9') { plan[plan_n++] = (int)strtol(t, (char **)&t, 10); }
     else return 0;
     if (*t == ',') t++;
@@ -70,7 +70,9 @@ ssize_t timeoutread(int t, int fd, char *buf, size_t len) {
   if (fd != 0) { errno = EBADF; return -1; }                 /* the SMTP connection is descriptor 0 */
   int c = plan[plan_k++ % plan_n];
   in_reads++;
-  if (c < 0) { in_failed = 1; errno = EIO; return -1; }
+  /* a program that goes on reading after a failed read (the plan is cyclic) would never stop: that is a verdict ('H'), not a hang of the check */
+  if (in_case && in_reads > 4 * (long)in_n + 256) { in_hang = 1; longjmp(h_jb, 1); }
+  if (c < 0) { in_failed = 1; errno = c == -1 ? EIO : c == -2 ? EAGAIN : c == -3 ? EINTR : ECONNRESET; return -1; }   /* e a n p: whatever the errno (other than a timeout), the session must end */
   size_t k = in_n - in_pos;
   if (k > len) k = len;
   if (c > 0 && k > (size_t)c) k = c;
@@ -100,7 +102,7 @@ static void onep(const unsigned char *m, size_t n, const char *tok) {
   int hops = -1;
   if (!parse_plan(tok)) return;
   prog_restore();                                /* a fresh qmail-smtpd: ssin, ssinbuf, ssout, bytestooverflow, qqt, every static */
-  in_p = m; in_n = n; in_pos = 0; plan_k = 0; in_reads = 0; in_failed = 0;
+  in_p = m; in_n = n; in_pos = 0; plan_k = 0; in_reads = 0; in_failed = 0; in_hang = 0;
   hbuf_reset(&stored); hbuf_reset(&replyb);
   char st = 'A';
   in_case = 1;
@@ -115,7 +117,8 @@ static void onep(const unsigned char *m, size_t n, const char *tok) {
     blast(&hops);
   }
   else {
-    if (replyb.n >= 3 && !memcmp(replyb.p, "451", 3)) st = 'S';
+    if (in_hang) st = 'H';
+    else if (replyb.n >= 3 && !memcmp(replyb.p, "451", 3)) st = 'S';
     else if (replyb.n == 0 && (in_pos == in_n || in_failed)) st = 'E';
     else st = 'T';
   }
@@ -171,8 +174,9 @@ int main(int argc, char **argv) {
         /* a failing read() after j one-byte reads, for every j up to just past the terminator, and after one / two
          * larger reads: the session may die there (E) only if the decoder has no verdict yet on the bytes delivered */
         if (len + 4 <= maxlen) {
-          for (int j = 0; j <= len + 6; j++) { char t[80]; int o = 0; for (int q = 0; q < j; q++) o += snprintf(t + o, sizeof t - o, "1,"); snprintf(t + o, sizeof t - o, "e"); onep(m, len + 11, t); }
+          for (int j = 0; j <= len + 6; j++) { char t[80]; int o = 0; for (int q = 0; q < j; q++) o += snprintf(t + o, sizeof t - o, "1,"); snprintf(t + o, sizeof t - o, "%c", "eanp"[(j + len) & 3]); onep(m, len + 11, t); }
           onep(m, len + 11, "3,e"); onep(m, len + 11, "4,2,e"); onep(m, len + 11, "0,e"); onep(m, len + 11, "2,e@1");
+          onep(m, len + 11, "3,a"); onep(m, len + 11, "4,2,n"); onep(m, len + 11, "0,a"); onep(m, len + 11, "1,a,1,p,1,e");
         }
       }
     }
@@ -261,7 +265,7 @@ int main(int argc, char **argv) {
       onep(b, n, tok);
     }
     { char tok[64]; snprintf(tok, sizeof tok, "%d,0@%u", (int[]){1023, 1024, 300, 7}[h_below(4)], 1 + h_below(1500)); onep(b, n, tok); }
-    { char tok[64]; snprintf(tok, sizeof tok, "%u,%u,e", 1 + h_below(1100), 1 + h_below(1100)); onep(b, n, tok); }
+    { char tok[64]; snprintf(tok, sizeof tok, "%u,%u,%c", 1 + h_below(1100), 1 + h_below(1100), "eanp"[h_below(4)]); onep(b, n, tok); }
     free(b);
   }
   /* (6) every framing string placed across the buffer refill: padding so that the 1024-byte boundary falls before, inside
